@@ -573,6 +573,98 @@ theorem literal_faithful (v : String) (h : ∃ k, ordinalOfSource v = .ok k) : O
   obtain ⟨k, hk⟩ := h
   simp [OrdinalFaithful, PR.prE, ordinalOfExpr, hk]
 
+/-! ## level-locality: the references of an expression do not depend on the bodies of its sub-queries -/
+
+mutual
+/-- replace the body of every sub-query of an expression by `q0` -/
+def eraseE (q0 : Query) : Expr → Expr
+  | .column t n => .column t n
+  | .literal v => .literal v
+  | .wildcard t => .wildcard t
+  | .func s n ps => .func s n (eraseEs q0 ps)
+  | .agg n ps d => .agg n (eraseEs q0 ps) d
+  | .cast e sg ty ps => .cast (eraseE q0 e) sg ty ps
+  | .extract n e => .extract (eraseE q0 n) (eraseE q0 e)
+  | .window fn part ord rows => .window (eraseE q0 fn) (eraseEs q0 part) (eraseOs q0 ord) rows
+  | .caseCond cs els => .caseCond (eraseArms q0 cs) (eraseOE q0 els)
+  | .caseVal v cs els => .caseVal (eraseE q0 v) (eraseArms q0 cs) (eraseOE q0 els)
+  | .subValue vs => .subValue (eraseEs q0 vs)
+  | .subQuery _ => .subQuery q0
+  | .exists_ v => .exists_ (eraseE q0 v)
+  | .index a i => .index (eraseE q0 a) (eraseE q0 i)
+  | .unary o e => .unary o (eraseE q0 e)
+  | .compute l o r => .compute (eraseE q0 l) o (eraseE q0 r)
+  | .kw k n l r => .kw k n (eraseE q0 l) (eraseE q0 r)
+  | .between n b f t => .between n (eraseE q0 b) (eraseE q0 f) (eraseE q0 t)
+  | .compare o l r => .compare o (eraseE q0 l) (eraseE q0 r)
+  | .not_ e => .not_ (eraseE q0 e)
+  | .and_ l r => .and_ (eraseE q0 l) (eraseE q0 r)
+  | .xor l r => .xor (eraseE q0 l) (eraseE q0 r)
+  | .or_ l r => .or_ (eraseE q0 l) (eraseE q0 r)
+  | .mybatis s => .mybatis s
+def eraseEs (q0 : Query) : List Expr → List Expr
+  | [] => []
+  | e :: r => eraseE q0 e :: eraseEs q0 r
+def eraseOE (q0 : Query) : Option Expr → Option Expr
+  | none => none
+  | some e => some (eraseE q0 e)
+def eraseArms (q0 : Query) : List (Expr × Expr) → List (Expr × Expr)
+  | [] => []
+  | (w, t) :: r => (eraseE q0 w, eraseE q0 t) :: eraseArms q0 r
+def eraseO (q0 : Query) : OrderItem → OrderItem
+  | .mk e d nf nl => .mk (eraseE q0 e) d nf nl
+def eraseOs (q0 : Query) : List OrderItem → List OrderItem
+  | [] => []
+  | o :: r => eraseO q0 o :: eraseOs q0 r
+end
+
+mutual
+/-- **level-locality**: whatever the nested queries contain, the references reported for the expression are the same -/
+theorem colsE_erase (q0 : Query) : ∀ e : Expr, colsE (eraseE q0 e) = colsE e
+  | .column _ _ => by simp [eraseE]
+  | .literal _ => by simp [eraseE]
+  | .wildcard _ => by simp [eraseE]
+  | .func _ _ ps => by simp [eraseE, colsE, colsEs_erase q0 ps]
+  | .agg _ ps _ => by simp [eraseE, colsE, colsEs_erase q0 ps]
+  | .cast e _ _ _ => by simp [eraseE, colsE, colsE_erase q0 e]
+  | .extract n e => by simp [eraseE, colsE, colsE_erase q0 n, colsE_erase q0 e]
+  | .window fn part ord _ => by simp [eraseE, colsE, colsE_erase q0 fn, colsEs_erase q0 part, colsOs_erase q0 ord]
+  | .caseCond cs els => by simp [eraseE, colsE, colsArms_erase q0 cs, colsOE_erase q0 els]
+  | .caseVal v cs els => by simp [eraseE, colsE, colsE_erase q0 v, colsArms_erase q0 cs, colsOE_erase q0 els]
+  | .subValue vs => by simp [eraseE, colsE, colsEs_erase q0 vs]
+  | .subQuery _ => by simp [eraseE, colsE]
+  | .exists_ v => by simp [eraseE, colsE, colsE_erase q0 v]
+  | .index a i => by simp [eraseE, colsE, colsE_erase q0 a, colsE_erase q0 i]
+  | .unary _ e => by simp [eraseE, colsE, colsE_erase q0 e]
+  | .compute l _ r => by simp [eraseE, colsE, colsE_erase q0 l, colsE_erase q0 r]
+  | .kw _ _ l r => by simp [eraseE, colsE, colsE_erase q0 l, colsE_erase q0 r]
+  | .between _ b f t => by simp [eraseE, colsE, colsE_erase q0 b, colsE_erase q0 f, colsE_erase q0 t]
+  | .compare _ l r => by simp [eraseE, colsE, colsE_erase q0 l, colsE_erase q0 r]
+  | .not_ e => by simp [eraseE, colsE, colsE_erase q0 e]
+  | .and_ l r => by simp [eraseE, colsE, colsE_erase q0 l, colsE_erase q0 r]
+  | .xor l r => by simp [eraseE, colsE, colsE_erase q0 l, colsE_erase q0 r]
+  | .or_ l r => by simp [eraseE, colsE, colsE_erase q0 l, colsE_erase q0 r]
+  | .mybatis _ => by simp [eraseE]
+theorem colsEs_erase (q0 : Query) : ∀ es : List Expr, colsEs (eraseEs q0 es) = colsEs es
+  | [] => by simp [eraseEs]
+  | e :: r => by simp [eraseEs, colsEs, colsE_erase q0 e, colsEs_erase q0 r]
+theorem colsOE_erase (q0 : Query) : ∀ e : Option Expr, colsOE (eraseOE q0 e) = colsOE e
+  | none => by simp [eraseOE]
+  | some e => by simp [eraseOE, colsOE, colsE_erase q0 e]
+theorem colsArms_erase (q0 : Query) : ∀ cs : List (Expr × Expr), colsArms (eraseArms q0 cs) = colsArms cs
+  | [] => by simp [eraseArms]
+  | (w, t) :: r => by simp [eraseArms, colsArms, colsE_erase q0 w, colsE_erase q0 t, colsArms_erase q0 r]
+theorem colsO_erase (q0 : Query) : ∀ o : OrderItem, colsO (eraseO q0 o) = colsO o
+  | .mk e _ _ _ => by simp [eraseO, colsO, colsE_erase q0 e]
+theorem colsOs_erase (q0 : Query) : ∀ os : List OrderItem, colsOs (eraseOs q0 os) = colsOs os
+  | [] => by simp [eraseOs]
+  | o :: r => by simp [eraseOs, colsOs, colsO_erase q0 o, colsOs_erase q0 r]
+end
+
+/-- and so does the analyzer: the collection over an expression is unchanged when its sub-queries are replaced -/
+theorem nodeCols_level_local (q0 : Query) (e : Expr) : nodeColsV (eraseE q0 e).toVal = nodeColsV e.toVal := by
+  rw [expr_ok, expr_ok, colsE_erase]
+
 /-! ## Known findings on the model -/
 
 /-- `SELECT b AS a FROM t WHERE a > 0` -/
